@@ -11,7 +11,7 @@
      c05.model_part / c05.model_part2 (alts ballots) -> () | (parts)      the mirrored is_part / is_2_part
      c05.de_construct (alts ballots order) -> bool   de_check of the code's construction on that order *)
 From Coq Require Import List ZArith NArith QArith String.
-From PrefVerif Require Import Lib.Val Model.C1P Model.Approval Model.PQTree.
+From PrefVerif Require Import Lib.Val Model.C1P Model.Approval Model.PQTree Model.SP Model.PQTreeSP.
 Import ListNotations.
 Open Scope string_scope.
 
@@ -40,6 +40,15 @@ Definition op_pq_reorder (v : val) : val :=
 
 Definition op_pq_inv (v : val) : val := ebool (pq_inv (dlist dnat (dnth 0 v)) (d_sets (dnth 1 v))).
 
+Definition op_pq_complete_chk (v : val) : val := ebool (pq_complete_chk (dlist dnat (dnth 0 v)) (d_sets (dnth 1 v))).
+
+(* C11 on top of the mirrored PQ-tree: (dtype alts profile elems) -> result bool; dtype / order encodings as in Ops/C11.v *)
+Definition d_dt11 (v : val) : ord_dt :=
+  match dnat v with 0%nat => DTsoc | 1%nat => DTsoi | 2%nat => DTtoc | 3%nat => DTtoi | _ => DTother end.
+Definition op_c11_pq_algo (v : val) : val :=
+  eresult ebool (is_single_peaked_pq_tree_algo (dlist dnat (dnth 3 v)) (d_dt11 (dnth 0 v)) (dlist dN (dnth 1 v))
+                                               (dlist (dlist (dlist dN)) (dnth 2 v))).
+
 Definition dec2 (f : list N -> list (list N) -> bool) (v : val) : val :=
   ebool (f (d_alts (dnth 0 v)) (d_ballots (dnth 1 v))).
 Definition chk_alt (f : list N -> list (list N) -> list N -> bool) (v : val) : val :=
@@ -62,7 +71,8 @@ Definition e_parts (o : option (list (list N))) : val := eoption (elist (elist e
 Definition ops : optable :=
   [ ("c05.c1p_decide", op_c1p_decide); ("c05.c1p_check", op_c1p_check);
     ("c05.c1p_core", op_c1p_core);
-    ("c05.pq_reorder", op_pq_reorder); ("c05.pq_inv", op_pq_inv);
+    ("c05.pq_reorder", op_pq_reorder); ("c05.pq_inv", op_pq_inv); ("c05.pq_complete_chk", op_pq_complete_chk);
+    ("c11.pq_algo", op_c11_pq_algo);
     ("c05.sets_decide", op_sets_decide); ("c05.sets_check", op_sets_check);
     ("c05.ci_decide", dec2 ci_decide);   ("c05.ci_check", chk_alt ci_check);
     ("c05.cei_decide", dec2 cei_decide); ("c05.cei_check", chk_alt cei_check);
